@@ -13,7 +13,7 @@ func init() {
 		Assumptions: []string{"the interval-set model (validated against a brute-force bitset by selfcheck)", "documented-panic arguments (AddRange/Flip end > 2^32) are out of domain and not generated"},
 		Units: []Unit{
 			{Name: "histories", Quick: 2600, Thorough: 150000, Run: c02Histories},
-			{Name: "ratchet", Quick: 160, Thorough: 6000, Run: c02Ratchet},
+			{Name: "ratchet", Quick: 500, Thorough: 20000, Run: c02Ratchet},
 			{Name: "exhaustive-small-domain", ExhaustiveN: c02ExhN, RunIndexed: c02Exh},
 		},
 	})
@@ -94,20 +94,24 @@ func c02Ratchet(c *Ctx) {
 	base := key << 16
 	var start *ISet
 	target := []uint64{4096, 65536}[r.Intn(2)]
-	if target == 4096 && r.Chance(0.4) {
-		// a chunk of ~2045 two-value runs: about 4096 values AND at the edge of run efficiency
-		// (2047 runs is the largest run chunk that is still the smallest form)
-		n := 2040 + r.Intn(12)
+	runEdge := false
+	if target == 4096 && r.Chance(0.5) {
+		// a chunk of two- and three-value runs with R in {2046,2047,2048} runs and 4094..4096 values: exactly
+		// at the array/bitmap threshold AND at the edge of run efficiency (2047 runs is the largest run chunk
+		// that is still the smallest form); gaps >= 4 so that a random absent value is rarely adjacent to a run
+		runEdge = true
+		R := 2046 + r.Intn(3)
+		c0 := 4094 + r.Intn(3)
 		st := NewISet()
 		pos := uint64(r.Range(0, 8))
-		for i := 0; i < n; i++ {
-			st.AddRange(pos, pos+1)
-			pos += 2 + r.Range(2, 28)
-		}
-		for st.Card() < uint64(4090+r.Intn(6)) {
-			// lengthen a few runs
-			v := st.iv[r.Intn(len(st.iv))]
-			st.Add(v.Hi + 1)
+		threes := c0 - 2*R
+		for i := 0; i < R; i++ {
+			l := uint64(2)
+			if i < threes {
+				l = 3
+			}
+			st.AddRange(pos, pos+l-1)
+			pos += l + r.Range(4, 26)
 		}
 		start = ivsToSet(shiftIVs(st.iv, base))
 	} else if target == 4096 {
@@ -119,6 +123,9 @@ func c02Ratchet(c *Ctx) {
 		}
 	}
 	form := formsNoZC[r.Intn(len(formsNoZC))]
+	if runEdge {
+		form = []string{"range", "opt"}[r.Intn(2)]
+	}
 	bm, es := buildForm(r, start, form)
 	if es != "" {
 		c.Fail("build/"+form, "%s", es)
